@@ -209,6 +209,85 @@ pub fn sslv3_trailing(rng: &mut Rng, m: Item) -> Item {
     }
 }
 
+/// true when `b` is a sequence of complete (type, length, data) extensions
+pub fn is_tlv_block(b: &[u8]) -> bool {
+    let mut i = 0usize;
+    while i < b.len() {
+        if i + 4 > b.len() {
+            return false;
+        }
+        let l = ((b[i + 2] as usize) << 8) | b[i + 3] as usize;
+        i += 4 + l;
+    }
+    i == b.len()
+}
+
+/// Bring a generated message inside what the RFCs call well-formed (third audit): the strict
+/// oracles of C03 / C10 speak of "well-formed messages", so a maintainer who starts rejecting a
+/// zero-length ASN.1Cert, a ServerHelloDone with a body, an empty cipher-suite list or an
+/// extension block that is not a TLV sequence stays within those statements. (C09 quantifies
+/// over such values explicitly and keeps generating them.)
+pub fn rfc_valid(rng: &mut Rng, mut m: Item) -> Item {
+    use crate::item::Val;
+    fn at_least_one(rng: &mut Rng, m: &mut Item, k: &str) {
+        if m.ob(k).map(|b| b.is_empty()).unwrap_or(false) {
+            m.set(k, Val::Bytes(vec![rng.u8()]));
+        }
+    }
+    fn tlv_ext(rng: &mut Rng, m: &mut Item) {
+        if let Some(b) = m.ob("ext") {
+            if !is_tlv_block(b) {
+                let max = b.len().max(8);
+                let e = extension_block(rng, max);
+                m.set("ext", Val::Bytes(e));
+            }
+        }
+    }
+    match m.kind.as_str() {
+        "client_hello" | "d_client_hello" => {
+            if m.b("ciphers").is_empty() {
+                m.set("ciphers", Val::Bytes(cipher_id(rng).to_be_bytes().to_vec()));
+            }
+            if m.b("comp").is_empty() {
+                m.set("comp", Val::Bytes(vec![0]));
+            }
+            tlv_ext(rng, &mut m);
+        }
+        "server_hello" | "server_hello_d18" | "hello_retry_request" => tlv_ext(rng, &mut m),
+        "certificate" => {
+            let certs: Vec<Vec<u8>> = m.l("certs").iter().map(|c| if c.is_empty() { vec![0x30] } else { c.clone() }).collect();
+            m.set("certs", Val::List(certs));
+        }
+        "certificate_request" => {
+            at_least_one(rng, &mut m, "types");
+            if m.ob("sigalgs").map(|b| b.is_empty()).unwrap_or(false) {
+                m.set("sigalgs", Val::Bytes(vec![4, 1]));
+            }
+            let cas: Vec<Vec<u8>> = m.l("cas").iter().map(|c| if c.is_empty() { vec![0x30] } else { c.clone() }).collect();
+            m.set("cas", Val::List(cas));
+        }
+        "server_done" => m.set("body", Val::Bytes(Vec::new())),
+        "certificate_verify" | "client_key_exchange" | "finished" => at_least_one(rng, &mut m, "body"),
+        "certificate_status" => at_least_one(rng, &mut m, "blob"),
+        "server_key_exchange" => at_least_one(rng, &mut m, "params"),
+        "heartbeat" => {
+            // RFC 6520: a HeartbeatMessage never exceeds 2^14 bytes
+            let plen = m.b("payload").len();
+            if 3 + plen > 16384 {
+                let p = m.b("payload")[..16384 - 3].to_vec();
+                m.set("plen", Val::Int(p.len() as u64));
+                m.set("payload", Val::Bytes(p));
+                m.set("pad", Val::Bytes(Vec::new()));
+            } else if 3 + plen + m.b("pad").len() > 16384 {
+                let pad = m.b("pad")[..16384 - 3 - plen].to_vec();
+                m.set("pad", Val::Bytes(pad));
+            }
+        }
+        _ => {}
+    }
+    m
+}
+
 pub fn any_handshake(rng: &mut Rng, budget: usize) -> Item {
     let k = *rng.pick(HS_ALL);
     handshake(rng, k, budget)
